@@ -166,14 +166,73 @@ func init() {
 		c.ruleReqResult()
 		c.ruleMainExit()
 		c.ruleIgnoreScopeLineUnadj()
-	}, Explanation: "wip"})
+	}, Explanation: "All product functions (superset of what is reachable from the analyzers): every dereference of a value from a nilable source is dominated by a nil check / comma-ok or discharged by a named rule (per-iteration assignment before the walk, lazy-initialisation helper); every unchecked type assertion is justified (REQ-RESULT, go/types contracts, dominating comma-ok); partial library APIs get their preconditions (MustCompile on compiling constants at init, Repeat counts from lengths, At(i)/Method(i) under i < Len(), LineStart on unadjusted lines); written maps come from make; integer divisions by non-zero constants; no explicit panic / os.Exit / log.Fatal; ReadFile error checked; loops are range, counting or scanner loops and recursion is structural descent; analyzers' ResultType/Requires agree (no driver-internal error). Index/slice bounds are reviewed only in the thorough tier."})
 	registerProp(&propDef{ID: "C17", Rules: func(c *Ctx) {
 		c.ruleCodeTable()
 		c.ruleReportGate()
 		c.rulePosInFile()
 		c.ruleMainExit()
 		c.ruleHierarchy()
-	}, Explanation: "wip"})
+	}, Explanation: "The 16 code constants, CodesByCategory (each code once under its own category), the documented code tables and the URL switch (each category -> an existing page that is the category's documentation page) agree; every report site carries a documented code of its analyzer's category and every code has a site; one report sink, in which the same GetCode()/GetPos() feed the ignore lookup, the `[code] message` header, the help URL and the diagnostic position; positions come from nodes (or annotations) of filtered files; main hands all eight analyzers to multichecker.Main and nothing else terminates the process."})
+}
+
+func init() {
+	registerProp(&propDef{ID: "C05", Rules: func(c *Ctx) {
+		c.ruleSitesIMPL()
+		c.ruleImportResolution()
+		c.ruleMatcherShape()
+		c.ruleTypeIdent()
+		c.ruleLangEq("@implements")
+		c.ruleAttach("@implements")
+		c.ruleReportGate()
+	}, Explanation: "Cascade of the three IMPL sites (IMPL01 iff the annotation's qualifier is unresolved; IMPL02 iff resolved and the key PackageFullPath.InterfaceName is not among the loaded interfaces; IMPL03 iff both found and checkImplementation(type, interface, ann.IsPointer) is non-empty, listing exactly that result); qualifier resolution: the package recorded for an import spec is PkgNameOf(spec).Imported(), resolution order alias > declared name > exact path > last path element, empty qualifier = current package; shape of the existing structural matcher (all four components compared, counts and every pair compared, every interface method examined, & = all methods / no & = value receivers). TYPE-IDENT / METHOD-SET (the verdict must be decided by go/types identity and the real method set of T, not by renderings of types and a receiver-kind filter) fail on today's tree: six recorded known findings (D11); any other violation is reported."})
+}
+
+func init() {
+	registerProp(&propDef{ID: "C09", Rules: func(c *Ctx) {
+		c.ruleSitesIMM()
+		c.ruleSitesCTOR()
+		c.ruleSitesTONL()
+		c.ruleSitesPKGO()
+		c.ruleSitesIMPL()
+		c.ruleIndexSrc()
+		c.ruleIterPackages()
+		c.ruleContainersEmptyFalse()
+		c.ruleLangEq()
+		c.ruleAttach(allKeywords...)
+		c.ruleNoWalkInReader()
+		c.ruleReportGate()
+	}, Explanation: "Every report site of all five checkers is control-dependent on a positive membership test in an index (or iterates the @implements annotations); every index entry originates from an annotation list of the local package or of a directly imported fact; annotation lists are extended only with non-nil results of the parse functions; the parse functions recognise exactly the documented grammar (automata) on doc comments of top-level declarations only (no AST walk, no trailing comments); the containers answer false when empty. Hence without a recognised annotation in the package and its direct imports no report site is reachable."})
+	registerProp(&propDef{ID: "C11", Rules: func(c *Ctx) {
+		c.ruleNoConcurrency()
+		c.ruleGlobalWrites()
+		c.ruleSharedReadOnly()
+		c.ruleMapOrder()
+		c.ruleNoNondet()
+		c.ruleConfigWiring()
+	}, Explanation: "No goroutine, channel, atomic or WaitGroup in product code; package-level state is written only at initialisation, except the configuration cache written once inside sync.Once.Do and read after it; every object shared between concurrently running actions (package-level matchers/regexps/tables, the annotation result, the ignore set, the configuration, imported facts) is only read - write effects computed on the callee bodies including the Aho-Corasick dependency (Contains is read-only, Match is not); the body of every range over a map is order-independent accumulation; no clock, randomness, pointer formatting, and no environment read outside package config."})
+	registerProp(&propDef{ID: "C12", Rules: func(c *Ctx) {
+		c.ruleWalkState("immutable", "constructor", "testonly", "packageonly")
+		c.ruleWalkRoot("immutable", "constructor", "testonly", "packageonly")
+		c.rulePrune("immutable", "constructor", "testonly", "packageonly")
+		c.rulePrunePred()
+		c.rulePosCompare()
+		c.ruleReaderState()
+		c.ruleSitesIMM()
+		c.ruleSitesCTOR()
+		c.ruleSitesTONL()
+		c.ruleSitesPKGO()
+		c.ruleAttach("@immutable", "@testonly", "@mutable", "@implements", "@constructor", "@packageonly")
+	}, Explanation: "Nothing a walk callback (or what it calls) writes outlives the visit of one node except append-only accumulators and per-file dedup maps created inside the file loop; context fields read during a walk are re-assigned on every path of each iteration before the walk; walk roots are all top-level declarations / whole filtered files with no filter in between; no pruning except the @testonly FuncDecl prune decided on the declaration's own name; ordered position comparisons and line/column numbers occur only in scope computation and rendering; readers carry no state between declarations (doc selection per spec); identity is by object (receiver, direct callee), not by spelling."})
+	registerProp(&propDef{ID: "C13", Rules: func(c *Ctx) {
+		c.ruleAliasAll()
+		c.ruleTypeInfoHelpers()
+		c.ruleNoSyntacticType()
+		c.ruleSitesIMM()
+		c.ruleSitesCTOR()
+		c.ruleSitesTONL()
+		c.ruleSitesPKGO()
+	}, Explanation: "Every assertion from types.Type to a concrete go/types node in product code is made on an un-aliased operand (types.Unalias / Underlying / Func.Type) - seven reviewed exceptions in package implements with one line of reason each, two of them part of known finding KF-C05-1; the pointer strip happens on the un-aliased value and its element is un-aliased again (sites and util helpers); use-site types come from TypesInfo, the only spelling-based type reader is the receiver of a method declaration."})
 }
 
 func (c *Ctx) thorough(pd *propDef) {}
